@@ -13,7 +13,7 @@ d,prop,rnd,change,needs,res,wt,i=sys.argv[1:]
 json.dump({"property":prop,"round":int(rnd),"change":change,"needs_to_manifest":needs,
  "confirmed_by_me":f"WT={wt} PROP={prop} tools/seedcheck.sh {i} <demo dir>: patch applies; go build ok; full suite passes with the change; demo fails with the change and passes without",
  "check_result":res,
- "author":"independent sub-agent given the property text, one-line descriptions of the earlier seeded changes for the property, a theme (a: optimisation gone wrong, b: refactoring gone wrong) and a scratch worktree"},
+ "author":"independent sub-agent given the property text, one-line descriptions of the earlier seeded changes for the property, a theme (a: optimisation gone wrong, b: refactoring gone wrong, c: defensive hardening gone wrong, d: feature / compatibility extension gone wrong) and a scratch worktree; prompt produced by tools/mkseedprompts.py"},
  open(d+"/meta.json","w"),indent=1,ensure_ascii=False)
 PY
 git -C /repo worktree remove --force ${WT:-/tmp/wt5}/$ID
